@@ -1058,7 +1058,9 @@ def path_expr(draw, spec):
     feats = set()
 
     def pred(cur_kids, self_name, cur_attrs):
-        k = draw(st.integers(0, 11))
+        k = draw(st.integers(0, 14))
+        if k > 11:
+            k -= 4      # 12, 13, 14 -> 8, 9, 10: the value-predicate forms
         kid_names = [d['name'] for d in cur_kids] if cur_kids else ELEM_NAMES
         if k == 0:
             feats.add('positional')
@@ -1100,7 +1102,7 @@ def path_expr(draw, spec):
             return f'[. {op} {lit}]'
         return ''
 
-    if draw(st.integers(0, 4)) == 0:
+    if draw(st.integers(0, 5)) == 0:
         return draw(_attr_context_path(spec, q))
     # structure-guided walk
     cur = spec['root']          # current declaration or None when unknown
@@ -1126,7 +1128,7 @@ def path_expr(draw, spec):
         res = resolve(spec, t) if t is not None else None
         kids = res['kids'] if res is not None and res['variety'] == 'eo' else []
         attrs = [a['name'] for a in res['attrs']] if res is not None and res['variety'] in ('eo', 'sc') else []
-        if draw(st.integers(0, 3)) == 0:
+        if draw(st.integers(0, 2)) == 0:
             s += pred(kids, cur['name'] if cur is not None else None, attrs)
         k = draw(st.integers(0, 15))
         if k < 6:
@@ -1180,7 +1182,7 @@ def path_expr(draw, spec):
             s += '/descendant-or-self::*'
             feats.add('descendant')
             cur = None
-    if not ended and draw(st.integers(0, 2)) == 0:
+    if not ended and draw(st.integers(0, 1)) == 0:
         t = decl_type(spec, cur) if cur is not None else None
         res = resolve(spec, t) if t is not None else None
         kids = res['kids'] if res is not None and res['variety'] == 'eo' else []
